@@ -1,21 +1,24 @@
 #!/bin/bash
-# usage: seedtest.sh <PID> <a|b> [check-props...]   (confirm a seeded change in its scratch worktree, then run our checks on it)
+# usage: [SUF=2] seedtest.sh <PID> <a|b> [check-props...]   (confirm a seeded change in its scratch worktree, then run our checks on it)
 PID=$1; X=$2; shift 2; CHECKS=${@:-$PID}
 W=/tmp/seed/$PID
-OUT=/verif/seeded/$PID-$X
+OUT=/verif/seeded/$PID-$X${SUF:-}
 mkdir -p $OUT
 HEAD=$(git -C /repo rev-parse HEAD)
 cd $W || exit 1
 git checkout -q -- . ; git checkout -q --detach $HEAD 2>/dev/null
-cp out/demo_$X.rs tests/demo_$X.rs
+# sources: the kept copy under /verif/seeded if there is one, else the author's out/ directory
+if [ -f $OUT/patch.diff ]; then PATCH=$OUT/patch.diff; DEMO=$OUT/demo.rs; else PATCH=$W/out/$X.diff; DEMO=$W/out/demo_$X.rs; fi
+cp $DEMO tests/demo_$X.rs
 echo "== demo on unchanged tree"; cargo test --offline --test demo_$X 2>&1 | grep -E "^test result|error\[" | head -3 > $OUT/demo_before.txt; cat $OUT/demo_before.txt
-if ! git apply --check out/$X.diff 2>/dev/null; then echo "PATCH DOES NOT APPLY to $HEAD"; exit 3; fi
-git apply out/$X.diff
+if ! git apply --check $PATCH 2>/dev/null; then echo "PATCH DOES NOT APPLY to $HEAD"; exit 3; fi
+git apply $PATCH
 echo "== build + suite with the change"; cargo build --offline 2>&1 | grep -E "^error" | head -3
 cargo nextest run --workspace --no-fail-fast --offline --test-threads 8 -E 'not binary(/demo_/)' 2>&1 | grep -E "Summary|FAIL|SIGABRT" | head -5 > $OUT/suite_with_change.txt; cat $OUT/suite_with_change.txt
 echo "== demo with the change"; cargo test --offline --test demo_$X 2>&1 | grep -E "^test result|error\[" | head -3 > $OUT/demo_after.txt; cat $OUT/demo_after.txt
 git checkout -q -- .
-cp out/$X.diff $OUT/patch.diff; cp out/demo_$X.rs $OUT/demo.rs; cp out/notes.md $OUT/notes.md
+[ "$PATCH" = "$OUT/patch.diff" ] || { cp $PATCH $OUT/patch.diff; cp $DEMO $OUT/demo.rs; cp $W/out/notes.md $OUT/notes.md; }
+rm -f tests/demo_$X.rs
 echo "== our checks"
 for C in $CHECKS; do
   flock /tmp/repo.lock bash -c "cd /repo && git status --short | grep -q '^ M' && { echo REPO-DIRTY; exit 9; }; git apply $OUT/patch.diff && cd /verif && ./check $C > $OUT/check_$C.txt 2>&1; echo rc=\$? >> $OUT/check_$C.txt; git -C /repo checkout -- ."
